@@ -11,7 +11,8 @@ TRUSTED = [
 ]
 ASSUMPTIONS = [
     "parse / cfparse patterns are sequences of literals and capturing fields (one character class with one quantifier each); cfparse cardinality "
-    "fields are not generated; cucumber expressions are covered by the oracle only (suite cucumber_expressions)",
+    "fields are not generated; cucumber expressions: matching is modelled (Cuke.v: literal / optional / alternative text, {int} {word} {}), "
+    "registration histories under that matcher and the {string} parameter are covered by the oracle only",
     "regular expressions (re, re0): alternation, greedy/lazy * + ?, named/unnamed/nested/optional groups, character classes are modelled "
     "(Regex.v, Python's backtracking priority); quantified bodies that can match the empty string, quantifiers nested in * or + bodies, "
     "look-around and back-references are not generated",
@@ -1069,6 +1070,81 @@ def gen_cuke_case(rnd):
     return {"patterns": patterns, "nfuncs": nfuncs, "factory_funcs": [], "locs": locs, "ops": ops}
 
 
+# ---------------------------------------------------------------- cucumber expressions through the model (Cuke.v)
+def c_catoms(pat):
+    out = []
+    for a in pat["alts"][0]:
+        if a[0] == "lit":
+            out.append("(CLit %s)" % cstr(a[1]))
+        elif a[0] == "opt":
+            out.append("(CLit %s)" % cstr(a[1]))
+            out.append("(COptional %s)" % cstr(a[2]))
+        elif a[0] == "alt":
+            out.append("(CAlternative %s)" % clist([cstr(w) for w in a[1]], "ustr"))
+        else:
+            k = {"int": "CPInt", "word": "CPWord", "anon": "CPAnon"}.get(a[1])
+            if k is None:
+                return None
+            out.append(k)
+    return clist(out, "catom")
+
+
+def impl_cuke_match(case):
+    from behave.cucumber_expression import StepMatcher4CucumberExpressions
+
+    def func(context, *a):
+        pass
+    try:
+        args = StepMatcher4CucumberExpressions(func, render_cuke(case["pat"])).check_match(case["text"])
+    except Exception as e:      # noqa
+        return {"EXC": "%s: %s" % (type(e).__name__, e)}
+    if args is None:
+        return {"match": None}
+    return {"match": [[a.start, a.end, a.original, a.name] for a in args]}
+
+
+def oracle_cuke_match(case, obs):
+    if "EXC" in obs:
+        return [("expression %r raised %s" % (render_cuke(case["pat"]), obs["EXC"]), "regex-exception")]
+    full = re.fullmatch(cuke_regex(case["pat"]), case["text"], re.S)
+    out = []
+    if (obs["match"] is not None) != bool(full):
+        out.append(("expression %r %s the step %r although its regular expression %s the complete text" % (
+            render_cuke(case["pat"]), "binds" if obs["match"] is not None else "does not bind", case["text"],
+            "does not match" if not full else "matches"), "bound-without-full-match" if not full else "matching-definition-not-found"))
+    elif full:
+        nparams = sum(1 for a in case["pat"]["alts"][0] if a[0] == "field")
+        if len(obs["match"]) != nparams:
+            out.append(("expression %r on %r: %d arguments for %d parameters" % (render_cuke(case["pat"]), case["text"], len(obs["match"]), nparams),
+                        "arguments-not-passed-as-matched"))
+        for a in obs["match"]:
+            if case["text"][a[0]:a[1]] != a[2]:
+                out.append(("argument: text[%d:%d] is %r, original %r" % (a[0], a[1], case["text"][a[0]:a[1]], a[2]), "span-does-not-delimit-original"))
+    return out
+
+
+def enc_cuke_match(case, obs):
+    atoms = c_catoms(case["pat"])
+    if atoms is None or "EXC" in obs:
+        return None
+    cin = "(%s, %s)" % (atoms, cstr(case["text"]))
+    if obs["match"] is None:
+        return cin, "(@None (list rarg))"
+    items = ["(mkRArg (Some (%s, %s)) (Some %s) None)" % (cnat(a[0]), cnat(a[1]), cstr(a[2])) for a in obs["match"]]
+    return cin, "(Some %s)" % clist(items, "rarg")
+
+
+def gen_cuke_match_cases(rnd, n):
+    cases = []
+    while len(cases) < n:
+        pat = make_cuke_pattern(rnd)
+        if any(a[0] == "field" and a[1] == "string" for a in pat["alts"][0]):
+            continue
+        for mut in (None, None, "case", "prefix", "suffix", "literal"):
+            cases.append({"pat": pat, "text": cuke_instance(rnd, pat, mut)})
+    return cases
+
+
 def with_retype(rnd, patterns, ops):
     """Insert one ["retype"] op (Number declared again with the Small converter) while a parse-style matcher is current.
     Later registrations of a pattern with a Number field use a copy of the pattern whose fields are "number2"; a pattern
@@ -1179,4 +1255,12 @@ def suites(tier, seed):
              "bound": "%d registration histories with look-ups under the cucumber-expressions matcher: literal words, optional text, alternative "
                       "words, {int} {word} {string} {} parameters, parameterless expressions (oracle only: full-text match, precedence, "
                       "ambiguity, parameter values and spans)" % len(ccases)}
-    return [main, regexes, cukes]
+    mcases = gen_cuke_match_cases(rnd, 1800 if thorough else 420)
+    cmatch = {"name": "cucumber_matches", "cases": mcases, "impl": impl_cuke_match, "oracle": oracle_cuke_match,
+              "nontrivial": lambda c, o: bool(o.get("match") is not None),
+              "bound": "%d (cucumber expression, text) pairs: literal text, optional text, alternative words, {int} {word} {} parameters x "
+                       "instances and one-character / case / prefix / suffix mutations, through StepMatcher4CucumberExpressions and Cuke.v" % len(mcases),
+              "coq": {"header": RX_HEADER.replace("StepMatch Regex.", "StepMatch Regex Cuke."), "in_ty": "list catom * ustr",
+                      "out_ty": "option (list rarg)", "fn": "fun c => cuke_check_match (fst c) (snd c)",
+                      "eqb": "option_eqb (list_eqb rarg_eqb)", "enc": enc_cuke_match, "shard": 300}}
+    return [main, regexes, cukes, cmatch]
